@@ -74,6 +74,7 @@ type vHnswSys struct {
 	nFl     int
 	nLvl    int
 	nReadd  int
+	idZero  bool        // ids are 1, 0, 3, 2, ...: the SECOND vector inserted carries id 0 (it is never re-added: for an HNSW Add id 0 also means "assign one")
 	queries [][]float32 // override of the query alphabet (sweeps)
 	// resident = vectors held by the graph (incl. soft-deleted); maxRes = its maximum
 	// since the index was last empty or flushed
@@ -123,6 +124,9 @@ func (s *vHnswSys) Enabled() []vOp {
 	var ops []vOp
 	if s.nAdd < s.cfg.MaxN {
 		id := s.nAdd + 1
+		if s.idZero {
+			id = s.nAdd ^ 1
+		}
 		for vi := range s.vals {
 			for lvl := 0; lvl <= 2; lvl++ {
 				if lvl > 0 && s.nLvl >= s.cfg.MaxLvl {
@@ -142,6 +146,9 @@ func (s *vHnswSys) Enabled() []vOp {
 		}
 		sort.Ints(rids)
 		for _, id := range rids {
+			if id == 0 {
+				continue
+			}
 			for vi := 0; vi < 2 && vi < len(s.vals); vi++ {
 				ops = append(ops, vOp{K: "ReAdd", A: id, B: vi})
 			}
@@ -657,6 +664,17 @@ func init() {
 				}
 				sh = append(sh, vShard{Name: "builders/" + strings.ReplaceAll(bcfg.String(), " ", ","), Run: func(c *vCtx) { vVecBuilderShard(c, bcfg, bdepth) }})
 			}
+			// id 0 as an explicit id (the second vector inserted)
+			for i, cfg := range vC12Configs(tier) {
+				cfg := cfg
+				if i%3 != 0 && tier != "thorough" {
+					continue
+				}
+				sh = append(sh, vShard{Name: "idzero/" + strings.ReplaceAll(cfg.String(), " ", ","), Run: func(c *vCtx) {
+					depth := cfg.MaxN + cfg.MaxRem + cfg.MaxFl
+					vBFS(c, &vHnswSys{c: c, cfg: cfg, cfgS: cfg.String() + " idzero", idZero: true, vals: vHnswVals(cfg.Dim, cfg.Vals)}, depth)
+				}})
+			}
 			for _, m := range []int{16, 32} {
 				for _, metric := range []DistanceKind{Euclidean, Cosine} {
 					m, metric := m, metric
@@ -704,7 +722,7 @@ func init() {
 				return ok
 			}
 			cfg := vParseHnswCfg(v.Config)
-			vReplayHist(&vHnswSys{c: c, cfg: cfg, cfgS: v.Config, vals: vHnswVals(cfg.Dim, cfg.Vals)}, v.History)
+			vReplayHist(&vHnswSys{c: c, cfg: cfg, cfgS: v.Config, idZero: strings.HasSuffix(v.Config, " idzero"), vals: vHnswVals(cfg.Dim, cfg.Vals)}, v.History)
 			_, ok := c.viol[v.Sig()]
 			return ok
 		},
